@@ -216,6 +216,9 @@ func check(c caseT) (msg string, info infoT) {
 	defer func() {
 		if r := recover(); r != nil {
 			msg = fmt.Sprintf("panic: %v", r)
+			if s, ok := r.(string); ok && strings.HasPrefix(s, "INFRA:") {
+				msg = s // the model's own consistency check, not gopcua
+			}
 		}
 	}()
 	pol := polByFrag(c.Policy)
@@ -421,52 +424,57 @@ func TestResidues(t *testing.T) {
 	}
 }
 
+// uni draws an (almost) uniformly distributed value in [0,n). rapid's integer
+// generators deliberately favour small values and the range bounds, which
+// would skew categorical choices; two draws are mixed to flatten that.
+func uni(t *rapid.T, label string, n int) int {
+	a := rapid.Uint64().Draw(t, label)
+	b := rapid.Uint64().Draw(t, label+"'")
+	x := a*0x9E3779B97F4A7C15 ^ (b+0xBF58476D1CE4E5B9)*0x94D049BB133111EB
+	x ^= x >> 30
+	x *= 0xBF58476D1CE4E5B9
+	x ^= x >> 27
+	x *= 0x94D049BB133111EB
+	x ^= x >> 31
+	return int(x % uint64(n))
+}
+
 func genCase(t *rapid.T) caseT {
-	cb := combos[rapid.IntRange(0, len(combos)-1).Draw(t, "combo")]
+	cb := combos[uni(t, "combo", len(combos))]
+	// magnitude of the chunk size: 2^k .. 2^(k+1); sizes above 2^20 are rare
+	// (they cost ~10 ms per MiB) and rarer still in the quick tier
+	var k int
+	switch m := uni(t, "mag", 100); {
+	case m < ev.Pick(70, 50):
+		k = 13 + uni(t, "bits", 3) // 13..15
+	case m < ev.Pick(98, 88):
+		k = 16 + uni(t, "bits", 4) // 16..19
+	default:
+		k = 20 + uni(t, "bits", 4) // 20..23
+	}
 	var chunk int
-	switch k := rapid.IntRange(0, 19).Draw(t, "chunkClass"); {
-	case k < 2: // the residue window again, with drawn nonces
-		chunk = rapid.IntRange(8192, 8192+4095).Draw(t, "chunk")
-	case k < 4: // powers of two +- 2
-		pow := rapid.IntRange(13, 19).Draw(t, "pow")
-		if rapid.IntRange(0, 99).Draw(t, "bigPow") < ev.Pick(4, 20) {
-			pow = rapid.IntRange(20, 24).Draw(t, "powBig")
-		}
-		chunk = 1<<pow + rapid.IntRange(-2, 2).Draw(t, "delta")
-		if chunk < 8192 {
-			chunk = 8192
-		}
-	case k < 8: // around a block boundary
-		kb := rapid.IntRange(13, 16).Draw(t, "blockBits")
-		if rapid.IntRange(0, 99).Draw(t, "far") < ev.Pick(2, 10) {
-			kb = rapid.IntRange(18, 22).Draw(t, "blockBitsFar")
-		}
-		blocks := (1<<kb)/16 + rapid.IntRange(0, (1<<kb)/16).Draw(t, "blocks")
-		chunk = headerSize + tokenSize + blocks*16 + rapid.IntRange(-1, 1).Draw(t, "off")
-	default: // magnitude first (rapid's integer ranges favour small values), then the value
-		var k int
-		switch m := rapid.IntRange(0, 99).Draw(t, "mag"); {
-		case m < ev.Pick(75, 50):
-			k = rapid.IntRange(13, 15).Draw(t, "bits")
-		case m < ev.Pick(98, 85):
-			k = rapid.IntRange(16, 19).Draw(t, "bits")
-		default:
-			k = rapid.IntRange(20, 23).Draw(t, "bits")
-		}
-		chunk = 1<<k + rapid.IntRange(0, 1<<k).Draw(t, "chunkLow")
+	switch c := uni(t, "chunkClass", 10); {
+	case c < 1: // the residue window again, with drawn nonces
+		chunk = 8192 + uni(t, "chunk", 4096)
+	case c < 3: // powers of two +- 2
+		chunk = 1<<(k+1) + uni(t, "delta", 5) - 2
+	case c < 6: // around a cipher block boundary
+		chunk = headerSize + tokenSize + ((1<<k)/16+uni(t, "blocks", (1<<k)/16))*16 + uni(t, "off", 3) - 1
+	default:
+		chunk = 1<<k + uni(t, "chunk", 1<<k+1)
 	}
 	if chunk < 8192 {
 		chunk = 8192
 	}
-	c := bodyKinds[rapid.IntRange(0, len(bodyKinds)-1).Draw(t, "bodyKind")]
+	c := bodyKinds[uni(t, "bodyKind", len(bodyKinds))]
 	if c.Kind == "max+1" && cb.Mode != modeEncrypt {
 		c.Kind = "max"
 	}
 	if c.Kind == "frac" {
-		c.Frac = rapid.IntRange(0, 999999).Draw(t, "frac")
+		c.Frac = uni(t, "frac", 1000000)
 	}
-	if c.Kind == "abs" && rapid.Bool().Draw(t, "smallAbs") {
-		c.BodyAbs = rapid.IntRange(0, 64).Draw(t, "bodyAbs")
+	if c.Kind == "abs" && uni(t, "smallAbs", 2) == 0 {
+		c.BodyAbs = uni(t, "bodyAbs", 65)
 	}
 	c.Policy, c.Mode, c.Chunk = cb.Pol.Frag, cb.Mode, chunk
 	c.Fill = rapid.IntRange(0, 255).Draw(t, "fill")
